@@ -594,7 +594,7 @@ def cf_patterns(body, inloop=False, direct_loop_child=False):
             if any(s[0] == 'exit_repeat' for s in A[:-1]):
                 found.add('P3')
             found |= cf_patterns(A, inloop, False)
-            prev_exit_if = bool(A) and A[-1][0] == 'exit_repeat'
+            prev_exit_if = prev_exit_if or (bool(A) and A[-1][0] == 'exit_repeat')
             continue
         if k == 'ife':
             A, B = st[2], st[3]
@@ -603,7 +603,7 @@ def cf_patterns(body, inloop=False, direct_loop_child=False):
             if contains_exit(B):
                 found.add('P2')
             found |= cf_patterns(A, inloop, False) | cf_patterns(B, inloop, False)
-            prev_exit_if = bool(A) and A[-1][0] == 'exit_repeat'
+            prev_exit_if = prev_exit_if or (bool(A) and A[-1][0] == 'exit_repeat')
             continue
         if k == 'while':
             found |= cf_patterns(st[2], True, True)
@@ -611,7 +611,7 @@ def cf_patterns(body, inloop=False, direct_loop_child=False):
             found |= cf_patterns(st[4], True, True)
         elif k == 'in':
             found |= cf_patterns(st[3], True, True)
-        prev_exit_if = False
+        # (the flag is sticky: the scan skips everything up to the end of the loop after such an if)
     return found
 
 def contains_exit(body):
